@@ -78,6 +78,12 @@ MAP = {
     "str_": [(I, r"Input<'src> for &'src str"), (I, r"SliceInput<'src> for &'src str")],
     "mapped_input": [(I, r"Input<'src> for MappedInput<T, S, I, F>")], "iter_input": [("src/stream.rs", r"for IterInput<I, S>")],
     "stream_input": [("src/stream.rs", r"ValueInput<'a> for Stream<I>")], "stream_boxed_input": [("src/stream.rs", r"ValueInput<'a> for Stream<I>"), ("src/stream.rs", r"pub fn boxed<'a>")],
+    "one_of_range": [(P, r"for OneOf<T, I, E>"), ("src/container.rs", r"Seq<'p, T> for Range<T>"), ("src/container.rs", r"Seq<'p, T> for core::ops::RangeInclusive<T>"), ("src/container.rs", r"Seq<'p, T> for RangeFrom<T>")],
+    "none_of_range": [(P, r"for NoneOf<T, I, E>"), ("src/container.rs", r"Seq<'p, T> for Range<T>"), ("src/container.rs", r"Seq<'p, T> for core::ops::RangeInclusive<T>"), ("src/container.rs", r"Seq<'p, T> for RangeFrom<T>")],
+    "one_of_single": [(P, r"for OneOf<T, I, E>"), ("src/container.rs", r"impl<'p, T: Clone> Seq<'p, T> for T \{")],
+    "none_of_single": [(P, r"for NoneOf<T, I, E>"), ("src/container.rs", r"impl<'p, T: Clone> Seq<'p, T> for T \{")],
+    "one_of_slice_set": [(P, r"for OneOf<T, I, E>"), ("src/container.rs", r"impl<'p, T> Seq<'p, T> for &'p \[T\] \{")],
+    "none_of_slice_set": [(P, r"for NoneOf<T, I, E>"), ("src/container.rs", r"impl<'p, T> Seq<'p, T> for &'p \[T\] \{")],
     "span_simple": [("src/span.rs", r"impl<T: Clone, C: Clone> Span for SimpleSpan<T, C>"), ("src/span.rs", r"fn to_end\(&self\)"), ("src/span.rs", r"pub fn into_range\(self\)"), ("src/span.rs", r"impl<T> From<Range<T>> for SimpleSpan<T>"), ("src/span.rs", r"impl<T> From<SimpleSpan<T, \(\)>> for Range<T>")],
     "span_union": [("src/span.rs", r"fn union\(&self, other: Self\)")],
     "span_range_tuple": [("src/span.rs", r"impl<C: Clone, S: Span<Context = \(\)>> Span for \(C, S\)"), ("src/span.rs", r"impl<T: Clone> Span for Range<T>")],
